@@ -25,6 +25,7 @@ void _crypt_des_crypt_block(void *ctx, unsigned char *out, const unsigned char *
 extern char nr_encrypt_ctx[];  // globalised by objcopy
 int prim_run(int alg, const uint8_t *msg, size_t len, const uint8_t *key, size_t klen, void *ctxbuf, size_t *ctx_used, uint8_t *out);
 const char *prim_name(int alg);
+int gen_yescrypt_setting(unsigned flags, unsigned long long N, unsigned r, unsigned p, unsigned t, const unsigned char *salt, size_t saltlen, char *out, size_t outlen);
 }
 
 struct TaskStack { char *lo; size_t size; };
